@@ -9,7 +9,8 @@ from ..model import FACE, M, NONE, S, SHIFTS, plen
 LEVEL = "model_checking"
 RULE = ("records = real Grid.diff/interp/min/max calls on random simple grids (1-3 axes, any position subset with "
         "center, n 2..6, 0-2 extra dims in any order, to omitted/scalar/mapping, rule and fill per call or grid "
-        "default, small integer data); non-trivial = distinct (op, per-axis (from,to,rule in force), ndim) classes")
+        "default, small integer data); non-trivial = distinct (op, per-axis (from,to,rule in force), ndim) classes"
+        ' Inputs also vary in spelling and state: numpy-scalar fill values, memory layouts (F-order, strided, negative stride, read-only), decreasing / irregular / unsorted coordinate labels, earlier calls with other per-call rules on the same Grid.')
 
 OPS = ["diff", "interp", "min", "max"]
 
